@@ -6,13 +6,17 @@ Proved (all inputs):
   * exception safety of the functions under contract: every subscript, dict lookup, next(), assert, unpacking and
     attribute-of-None in their real bodies has a discharged safety VC, every escaping exception class is one the
     contract allows (E1); the ENDMARKER discipline (never_past_end) that justifies `can_peek` (E2);
-  * Parser.parse never returns None (E1).
+  * Parser.parse never returns None (E1);
+  * (E3b, engine/rxambig.py) no tokenizer pattern has an unbounded loop whose body can start with a character that an unbounded
+    repeat at the end of the same body also consumes -- the shape that makes `re` backtrack exponentially on a line that fails to
+    match (a sufficient syntactic condition; other sources of super-linear matching are not excluded).
 Bounded: prefixes / single-edit mutations / character soup of a statement pool (hang = 5 s).
 Not modelled: recursion and memory limits (known finding, replayed), functions outside the contracts (listed).
 """
 from __future__ import annotations
 
 import json
+import re
 import time
 
 from checks import e1common, irload, pool
@@ -21,6 +25,36 @@ from checks.common import REPO, Report, StandIn, json_from, run_py
 from checks.parserfacts import eof_obligations, rank_obligations
 
 SAFETY_KINDS = {"safety", "variant", "raises", "pre", "vacuity", "invariant-entry", "invariant-preserved", "raises-only-when", "post"}
+
+
+def regex_obligations(rep: Report):
+    """termination in practice also needs `re` not to backtrack exponentially: per tokenizer pattern, no unbounded loop whose body can start
+    with a character that an unbounded repeat at the end of the same body also consumes (engine/rxambig.py: sufficient, syntactic)"""
+    from checks import rxload
+    from engine import rxambig
+    try:
+        d = rxload.patterns()
+    except RuntimeError as e:
+        rep.undecided("C03.rx.load", "lemma", "load the tokenizer's patterns", "rx-syntactic", str(e)[-300:])
+        return
+    pats = {**{f"{k}": v for k, v in d["ours"].items()}, **{f"startpats[{k}]": v for k, v in d.get("startpats", {}).items()},
+            **{f"endpats[{k}]": v for k, v in d["endpats"].items()}}
+    for name, pat in sorted(pats.items()):
+        oid = "C03.rx.backtracking." + "".join(c if c.isalnum() else "_" for c in name)
+        desc = (f"pattern `{name}`: no unbounded loop can split a run of characters among its iterations in more than one way through a trailing inner repeat "
+                "(no exponential backtracking of `re` on a line that fails to match)")
+        try:
+            probs = rxambig.problems(pat)
+        except rxambig.Unsupported as u:
+            rep.undecided(oid, "lemma", desc, "rx-syntactic", f"construct outside the analysis: {u}", function="peg_parser/tokenize.py:<patterns>")
+            continue
+        except re.error as e:
+            rep.undecided(oid, "lemma", desc, "rx-syntactic", f"pattern does not compile: {e}", function="peg_parser/tokenize.py:<patterns>")
+            continue
+        if probs:
+            rep.fail(oid, "lemma", desc, "rx-syntactic", probs[0], witness={"pattern": pat, "problems": probs[:3]}, function="peg_parser/tokenize.py:<patterns>")
+        else:
+            rep.ok(oid, "lemma", desc, "rx-syntactic", function="peg_parser/tokenize.py:<patterns>")
 
 
 def run(rep: Report):
@@ -34,6 +68,7 @@ def run(rep: Report):
     rank_obligations(rep, ir, "C03")
     eof_obligations(rep, ir, "C03")
     progress_obligations(rep, ir, "C03")
+    regex_obligations(rep)
     # ---- bounded stand-in
     t0 = time.time()
     n = 6000 if rep.tier == "quick" else 60000
